@@ -250,30 +250,10 @@ func NewPurityCase(g *Gen, id int) (*Case, []string, string) {
 			return in.Go(nil)
 		}
 		if n.Kind == KStruct && in.Kind == "map" && g.R.P(15) {
-			// the record handed over as a Go struct: a field is visible under its key only when the key
-			// is an exported Go identifier; the model sees exactly those entries
-			vis := IVal{Kind: "map", node: in.node}
-			var fs []reflect.StructField
-			seen := map[string]bool{}
-			for _, kv := range in.M {
-				if k := kv.K; k != "" && k[0] >= 'A' && k[0] <= 'Z' && isIdent(k) && !seen[k] {
-					seen[k] = true
-					vis.M = append(vis.M, kv)
-					fs = append(fs, reflect.StructField{Name: k, Type: reflect.TypeOf((*any)(nil)).Elem()})
-				}
-			}
-			fs = append(fs, reflect.StructField{Name: "hidden", PkgPath: "zogverif/eng", Type: reflect.TypeOf("")})
-			st := reflect.StructOf(fs)
-			c.In = &vis
-			c.Shape += ":structinput"
-			mkData = func() any {
-				v := reflect.New(st).Elem()
-				for i, kv := range vis.M {
-					if x := kv.V.Go(nil); x != nil {
-						v.Field(i).Set(reflect.ValueOf(x))
-					}
-				}
-				return v.Interface()
+			if vis, mk, ok := StructInput(in); ok {
+				c.In = &vis
+				c.Shape += ":structinput"
+				mkData = mk
 			}
 		}
 		if g.R.P(30) {
